@@ -4,7 +4,9 @@ import (
 	"bytes"
 	"errors"
 	"fmt"
+	"io"
 	"regexp"
+	"sort"
 	"strconv"
 	"strings"
 
@@ -287,6 +289,79 @@ func c19Program(c *core.Ctx, i int64, src []byte) {
 			}
 			c.Count("runs_with_an_output_writer_refusing_one_write", 8)
 		}
+		// writers of other dynamic types: a func adapter (its dynamic type cannot be compared with ==), a struct value
+		// holding a slice (likewise) receive what a bytes.Buffer receives; with one writer for Parse and another for
+		// Execute the two together receive it; the outcome is the same
+		if route != 2 && i%4 == 2 {
+			for combo := 0; combo < 8; combo++ {
+				d, t, s := combo&4 != 0, combo&2 != 0, combo&1 != 0
+				healthy := c19Route(route, src, dump, d, t, s)
+				for kind := 0; kind < 3; kind++ {
+					var bufA, bufB, lgA bytes.Buffer
+					var wA, wB, wL io.Writer
+					switch kind {
+					case 0:
+						wA = writerFunc(func(p []byte) (int, error) { return bufA.Write(p) })
+						wB = wA
+						wL = writerFunc(func(p []byte) (int, error) { return lgA.Write(p) })
+					case 1:
+						wA, wL = sliceHolder{[]*bytes.Buffer{&bufA}}, sliceHolder{[]*bytes.Buffer{&lgA}}
+						wB = wA
+					default:
+						wA, wB, wL = &bufA, &bufB, &lgA
+					}
+					var res string
+					pan, _ := protect(func() {
+						oA := []bcl.Option{bcl.OptOutput(wA), bcl.OptLogger(wL), bcl.OptDisasm(d), bcl.OptTrace(t), bcl.OptStats(s)}
+						oB := []bcl.Option{bcl.OptOutput(wB), bcl.OptLogger(wL), bcl.OptDisasm(d), bcl.OptTrace(t), bcl.OptStats(s)}
+						if route == 0 {
+							p, err := bcl.Parse(src, "c19", oA...)
+							if err != nil {
+								res = "||" + err.Error()
+								return
+							}
+							bl, bi, xerr := bcl.Execute(p, oB...)
+							res = canonBlocks(bl) + "|" + canonBinding(bi) + "|"
+							if xerr != nil {
+								res += xerr.Error()
+							}
+						} else {
+							bl, bi, err := bcl.Interpret(src, oA...)
+							res = canonBlocks(bl) + "|" + canonBinding(bi) + "|"
+							if err != nil {
+								res += err.Error()
+							}
+						}
+					})
+					c.Eval(1)
+					wantRes := healthy.blocks + "|" + healthy.binding + "|" + healthy.err
+					kindName := []string{"func adapters", "struct values holding a slice", "one buffer for Parse, another for Execute"}[kind]
+					switch {
+					case pan != "":
+						c.Violation("panic-with-options", fmt.Sprintf("%s, options %03b, writers: %s: panic: %s", routeName, combo, kindName, core.Trunc(pan, 300)), det(fmt.Sprintf("%03b", combo), healthy))
+						return
+					case res != wantRes || lgA.String() != healthy.log:
+						c.Violation("writer-type-changes-outcome", fmt.Sprintf("%s, options %03b, writers: %s: outcome %s / log %q, with plain buffers %s / %q", routeName, combo, kindName, core.Trunc(res, 300), core.Trunc(lgA.String(), 200), core.Trunc(wantRes, 300), core.Trunc(healthy.log, 200)), det(fmt.Sprintf("%03b", combo), healthy))
+						return
+					case kind == 2 && route == 0:
+						// which of the two writers gets the run-time text is not laid down; together they get all of it
+						got := strings.Split(bufA.String()+bufB.String(), "\n")
+						want := strings.Split(healthy.outParse+healthy.outExec, "\n")
+						sort.Strings(got)
+						sort.Strings(want)
+						if strings.Join(got, "\n") != strings.Join(want, "\n") {
+							c.Violation("text-lost-between-two-writers", fmt.Sprintf("%s, options %03b, writers: %s: together they received %q, one buffer receives %q", routeName, combo, kindName,
+								core.Trunc(bufA.String()+bufB.String(), 300), core.Trunc(healthy.outParse+healthy.outExec, 300)), det(fmt.Sprintf("%03b", combo), healthy))
+							return
+						}
+					case bufA.String() != healthy.outParse+healthy.outExec:
+						c.Violation("text-on-the-wrong-writer", fmt.Sprintf("%s, options %03b, writers: %s: the writer received %q, a buffer %q", routeName, combo, kindName, core.Trunc(bufA.String(), 300), core.Trunc(healthy.outParse+healthy.outExec, 300)), det(fmt.Sprintf("%03b", combo), healthy))
+						return
+					}
+				}
+			}
+			c.Count("runs_with_writers_of_other_dynamic_types", 24)
+		}
 		c.Count("routes_"+strings.ReplaceAll(routeName, "+", "_"), 1)
 		if base.parseErr {
 			c.Count("rejected_programs", 1)
@@ -298,6 +373,53 @@ func c19Program(c *core.Ctx, i int64, src []byte) {
 	if c.WantSample() && len(src) < 200 {
 		c.Sample(map[string]any{"source": string(src), "routes": 3, "option_combinations": 8})
 	}
+}
+
+type writerFunc func([]byte) (int, error)
+
+func (f writerFunc) Write(p []byte) (int, error) { return f(p) }
+
+type sliceHolder struct{ to []*bytes.Buffer }
+
+func (h sliceHolder) Write(p []byte) (int, error) { return h.to[0].Write(p) }
+
+// c19BeyondAnyLimit: programs whose string repetition overflows the length arithmetic (outside C06's input
+// domain; the library gives up on them the hard way). Whatever happens without options happens with them.
+func c19BeyondAnyLimit(c *core.Ctx, i int64, src []byte) {
+	c.NoteInput("src", src)
+	run := func(route int, d, t, s bool) string {
+		var out, lg bytes.Buffer
+		opts := []bcl.Option{bcl.OptOutput(&out), bcl.OptLogger(&lg), bcl.OptDisasm(d), bcl.OptTrace(t), bcl.OptStats(s)}
+		var res string
+		pan, _ := protect(func() {
+			if route == 0 {
+				p, err := bcl.Parse(src, "c19", opts...)
+				if err != nil {
+					res = "parse:" + err.Error()
+					return
+				}
+				bl, bi, xerr := bcl.Execute(p, opts...)
+				res = fmt.Sprintf("%s|%s|%v", canonBlocks(bl), canonBinding(bi), xerr)
+			} else {
+				bl, bi, err := bcl.Interpret(src, opts...)
+				res = fmt.Sprintf("%s|%s|%v", canonBlocks(bl), canonBinding(bi), err)
+			}
+		})
+		return res + "|panic=" + pan + "|" + lg.String() + "|" + strings.Join(splitOutput(out.String()).program, "\n")
+	}
+	for route := 0; route < 2; route++ {
+		want := run(route, false, false, false)
+		for combo := 1; combo < 8; combo++ {
+			got := run(route, combo&4 != 0, combo&2 != 0, combo&1 != 0)
+			c.Eval(1)
+			if got != want {
+				c.Violation("options-change-outcome-beyond-limits", fmt.Sprintf("a repetition that overflows: options %03b give %s, none give %s", combo, core.Trunc(got, 300), core.Trunc(want, 300)), map[string]any{"source": string(src)})
+				return
+			}
+		}
+	}
+	c.Count("overflowing_repetitions_compared_across_options", 1)
+	c.Nontrivial(core.Hash(src))
 }
 
 // hiccupWriter refuses its failAt-th write (0-based) and takes every other one; attempted keeps all of them.
@@ -367,6 +489,14 @@ func init() {
 					c.Begin(int64(k))
 					c19Program(c, int64(k), []byte(src))
 					c.Count("fixed_boundary_programs", 1)
+				}
+			}
+			for k, src := range []string{"print \"ab\" * 9223372036854775807\n", "def b { x = 1 }\nprint 7\ndef c { y = \"abc\" * 4611686018427387904 }\n",
+				"var n = 4611686018427387904\ndef b \"n\" { x = 1; def in { z = 2 } }\nbind b -> struct\nprint \"abcd\" * n\n", "def b { def in { s = \"é\" * 9223372036854775807 } }\n"} {
+				i := int64(len(fixed) + 1000000 + k)
+				if c.Mine(i) {
+					c.Begin(i)
+					c19BeyondAnyLimit(c, i, []byte(src))
 				}
 			}
 			n := int64(c.Pick(15000, 400000))
